@@ -84,6 +84,89 @@ def hash_loops(fn):
     return out
 
 
+COLLECT = re.compile(r"Iterator>::collect::|Iterator::collect$|FromIterator<.*>>::from_iter$|Extend<.*>>::extend$")
+SORT = re.compile(r"<impl \[.*\]>::sort(_by|_by_key|_unstable|_unstable_by|_unstable_by_key|_by_cached_key)?$|<impl \[T\]>::sort")
+THROUGH = ("IntoIterator>::into_iter", "<impl [T]>::iter", "DerefMut>::deref_mut", "Deref>::deref", "Iterator::enumerate", "Vec::<T, A>::iter")
+
+
+def hash_ordered_vectors(fn):
+    """locals that hold a Vec collected from a hash container's iterator: (local, block of the collect call)"""
+    out = []
+    for bi, t in M.calls_in(fn):
+        d = t[1].get("inst") or t[1].get("def") or ""
+        if COLLECT.search(t[1].get("def") or "") or "::collect::<" in d:
+            if HASH_ITER_TY.search(d) and re.search(r"Vec<|VecDeque<|String", t[3].get("ty", "")):
+                out.append((t[3]["l"], bi))
+    return out
+
+
+def loops_over_local(fn, local):
+    """(cfg, head, body, next-block) of loops whose iterator derives from `local`"""
+    from cfgtools import Defs, origin
+    defs = Defs(fn)
+    cfg = M.CFG(fn)
+    loops = {}
+    for tail, head in cfg.back_edges():
+        loops.setdefault(head, set()).update(natural_loop(cfg, tail, head))
+    out = []
+    for bi, t in M.calls_in(fn):
+        if bi not in cfg.reach or not (t[1].get("def") or "").endswith("::next") or not t[2]:
+            continue
+        o = origin(defs, t[2][0], through_calls=THROUGH)
+        base = o[1] if o[0] in ("multi", "param") else None
+        if base is None and o[0] == "place":
+            base = o[1]["l"]
+        if base is None and o[0] == "call":
+            base = o[1][3]["l"]
+        # follow one more level of moves: `_53 = move _51` where _51 = into_iter(move _43)
+        hops = 0
+        while base is not None and base != local and hops < 6:
+            hops += 1
+            ds = defs.all(base)
+            nxt = None
+            for d in ds:
+                if d[0] == "assign" and d[2][2][0] == "use" and d[2][2][1][0] in ("copy", "move") and not d[2][2][1][1]["p"]:
+                    nxt = d[2][2][1][1]["l"]
+                elif d[0] == "call" and d[2][2] and any((d[2][1].get("def") or "").endswith(x) for x in THROUGH) and d[2][2][0][0] in ("copy", "move"):
+                    nxt = d[2][2][0][1]["l"]
+                elif d[0] == "assign" and d[2][2][0] == "ref":
+                    nxt = d[2][2][1]["l"]
+            base = nxt
+        if base == local:
+            for head, body in loops.items():
+                if bi in body:
+                    out.append((cfg, head, body, bi))
+    return out
+
+
+def sorted_before(fn, cfg, local, block):
+    """a slice sort of `local` dominates `block`"""
+    from cfgtools import Defs
+    defs = Defs(fn)
+    for bi, t in M.calls_in(fn):
+        if not SORT.search(t[1].get("def") or "") or not t[2]:
+            continue
+        # trace the receiver back to the local through &mut / deref_mut
+        l = t[2][0][1]["l"] if t[2][0][0] in ("copy", "move") else None
+        hops = 0
+        while l is not None and l != local and hops < 8:
+            hops += 1
+            d = defs.single(l)
+            if d is None:
+                break
+            if d[0] == "assign" and d[2][2][0] == "ref":
+                l = d[2][2][1]["l"]
+            elif d[0] == "assign" and d[2][2][0] == "use" and d[2][2][1][0] in ("copy", "move"):
+                l = d[2][2][1][1]["l"]
+            elif d[0] == "call" and d[2][2] and d[2][2][0][0] in ("copy", "move"):
+                l = d[2][2][0][1]["l"]
+            else:
+                break
+        if l == local and cfg.dominates(bi, block):
+            return True
+    return False
+
+
 def run(ctx, chk):
     chk.explanation = EXPL
     P = ctx.program
@@ -184,6 +267,40 @@ def run(ctx, chk):
                                   f"{'first' if early else 'in which order'} differs from run to run", f"{file}:{line}")
                 else:
                     chk.ok("C19.R3", f"{unit}@bb{head}", f"{ity}: loop body neither prints nor formats")
+    # hash iteration collected into a Vec and looped over: deterministic only if sorted first
+    for which in ("lib", "bin"):
+        for f in ctx.facts.mir(which)["fns"]:
+            for local, cb in hash_ordered_vectors(f):
+                unit = f["name"].split("::")[-1]
+                file = f["span"].rsplit(":", 2)[0]
+                for cfg, head, body, nb in loops_over_local(f, local):
+                    nloops += 1
+
+                    def is_print(b):
+                        t = M.term(f["blocks"][b])
+                        return t[0] == "call" and PRINT_CALLEE.search(t[1].get("def") or "")
+                    none_target = None
+                    nxt = M.succs(f["blocks"][nb])
+                    if nxt:
+                        t = M.term(f["blocks"][nxt[0]])
+                        if t[0] == "switch":
+                            none_target = next((tg for v, tg in t[2] if v == 0), None)
+                    after = cfg.reachable_from(none_target) if none_target is not None else set()
+                    early_only = set()
+                    for b in body:
+                        for s_ in cfg.succ[b]:
+                            if s_ not in body and s_ != none_target and M.term(f["blocks"][s_])[0] != "unreachable":
+                                early_only |= cfg.reachable_from(s_) - after
+                    observable = any(is_print(b) for b in body | early_only)
+                    line = f["blocks"][nb]["term"]["line"]
+                    if not observable:
+                        chk.ok("C19.R3", f"{unit}@bb{head}", "vector collected from a hash container: loop body neither prints nor formats")
+                    elif sorted_before(f, cfg, local, head):
+                        chk.ok("C19.R3", f"{unit}@bb{head}", "vector collected from a hash container is sorted before the reporting loop: order fixed by the keys")
+                    else:
+                        chk.violation("C19.R3", unit, "hash-order-output:collected-unsorted",
+                                      f"{f['name']} collects a hash container into a vector and reports from it without sorting: the order is still the per-process random hash order",
+                                      f"{file}:{line}")
     if nloops == 0:
         chk.ok("C19.R3", "all-functions", "no loop over a hash container in either crate", nontrivial=False)
     chk.extra["hash_loops"] = nloops
